@@ -7,9 +7,9 @@ from harness import pipeline as PL, solver as S
 from props import c01
 
 SPEC = {
-    "gen": ["Rotations", "GetHkl", "UtilLeaf", "SolverLeaf"],
+    "gen": ["Rotations", "GetHkl", "UtilLeaf", "SolverLeaf", "SolverDispatch"],
     "modules": ["DiffcalcProofs.Props.C02", "DiffcalcProofs.Props.C02Bisect", "DiffcalcProofs.Props.TieSolver"],
-    "theorems": {"DiffcalcProofs.Props.TieSolver": ["TieSolver.small_generated", "TieSolver.bound_generated", "TieSolver.sign_generated", "TieSolver.anglesEquivalent_generated"],
+    "theorems": {"DiffcalcProofs.Props.TieSolver": ["TieSolver.phiAndQaz_generated", "TieSolver.chiAndQaz_generated", "TieSolver.qazValue_generated", "TieSolver.small_generated", "TieSolver.bound_generated", "TieSolver.sign_generated", "TieSolver.sampleFromChiEta_generated", "TieSolver.detFromQaz_generated", "TieSolver.anglesEquivalent_generated", "TieSolver.refConChiMu_generated", "TieSolver.refConMuPhi_generated", "TieSolver.refConEtaPhi_generated", "TieSolver.refConChiPhi_generated", "TieSolver.sampleConPhi_generated", "TieSolver.sampleConChi_generated", "TieSolver.sampleConEta_generated", "TieSolver.sampleConMuChi_generated", "TieSolver.sampleConEtaPhi_generated", "TieSolver.sampleConEtaChi_generated", "TieSolver.sampleConMuPhi_generated", "TieSolver.sampleConMuEta_generated", "TieSolver.detFromDelta_generated", "TieSolver.detFromNu_generated", "TieSolver.sampleConMu_generated", "TieSolver.refConMuEta_generated", "TieSolver.refConChiEta_generated", "TieSolver.sampleConChiPhi_generated", "TieSolver.sampleConOmegaBisect_generated", "TieSolver.sampleConMuBisect_generated", "TieSolver.sampleConEtaBisect_generated", "TieSolver.twoSampleDetector_generated", "TieSolver.twoSampleReference_generated"],
         "DiffcalcProofs.Props.C02": [
         "C02.filter_sound", "C02.tidy_preserves_constrained", "C02.tidy_axes_spec", "C02.passthrough_detSamp2",
         "C02.passthrough_refSamp2", "C02.passthrough_samp3", "C02.passthrough_detRefSamp", "C02.passthrough_detector",
